@@ -37,8 +37,8 @@ _cov = cover.Coverage()
 
 def setup(ctx):
     import gaddlemaps._auxilliary as aux
-    _cov.watch(aux.rotation_matrix)
-    _cov.watch(aux.calcule_base)
+    _cov.watch_attr(aux, 'rotation_matrix')
+    _cov.watch_attr(aux, 'calcule_base')
     _cov.start()
     monitors.install_rotation_contract(ctx)
     monitors.install_frame_contract(ctx)
